@@ -132,17 +132,17 @@ theorem stockholm_patched_witnesses :
 
 /-- `#NEXUS\n[` — unterminated comment: `consumeComment` spins at EOF -/
 theorem nexus_counterexample_hang :
-    Nexus.parse ⟨false, false, false⟩ {} [35, 78, 69, 88, 85, 83, 10, 91] = .hang := by decide
+    Nexus.parse ⟨false, false, false, false⟩ {} [35, 78, 69, 88, 85, 83, 10, 91] = .hang := by decide
 /-- a matrix row without residues: success with zero columns -/
 theorem nexus_counterexample_zero_columns :
-    Nexus.parse ⟨false, false, false⟩ {} [35, 78, 69, 88, 85, 83, 10, 98, 101, 103, 105, 110, 32, 100, 97, 116, 97, 59, 10, 109, 97, 116, 114, 105, 120, 10, 97, 32, 10, 59, 10, 101, 110, 100, 59, 10] = .ok ⟨1, 0, [([97], [])]⟩ := by decide
+    Nexus.parse ⟨false, false, false, false⟩ {} [35, 78, 69, 88, 85, 83, 10, 98, 101, 103, 105, 110, 32, 100, 97, 116, 97, 59, 10, 109, 97, 116, 114, 105, 120, 10, 97, 32, 10, 59, 10, 101, 110, 100, 59, 10] = .ok ⟨1, 0, [([97], [])]⟩ := by decide
 /-- `ntax=-1 nchar=-1` is accepted with one row of one column -/
 theorem nexus_counterexample_minus_one :
-    Nexus.parse ⟨false, false, false⟩ {} [35, 78, 69, 88, 85, 83, 10, 98, 101, 103, 105, 110, 32, 100, 97, 116, 97, 59, 10, 100, 105, 109, 101, 110, 115, 105, 111, 110, 115, 32, 110, 116, 97, 120, 61, 45, 49, 32, 110, 99, 104, 97, 114, 61, 45, 49, 59, 10, 109, 97, 116, 114, 105, 120, 10, 97, 32, 65, 10, 59, 10, 101, 110, 100, 59, 10] = .ok ⟨1, 1, [([97], [65])]⟩ := by decide
+    Nexus.parse ⟨false, false, false, false⟩ {} [35, 78, 69, 88, 85, 83, 10, 98, 101, 103, 105, 110, 32, 100, 97, 116, 97, 59, 10, 100, 105, 109, 101, 110, 115, 105, 111, 110, 115, 32, 110, 116, 97, 120, 61, 45, 49, 32, 110, 99, 104, 97, 114, 61, 45, 49, 59, 10, 109, 97, 116, 114, 105, 120, 10, 97, 32, 65, 10, 59, 10, 101, 110, 100, 59, 10] = .ok ⟨1, 1, [([97], [65])]⟩ := by decide
 theorem nexus_patched_witnesses :
-    Nexus.parse ⟨true, true, true⟩ {} [35, 78, 69, 88, 85, 83, 10, 91] = .error ∧
-    Nexus.parse ⟨true, true, true⟩ {} [35, 78, 69, 88, 85, 83, 10, 98, 101, 103, 105, 110, 32, 100, 97, 116, 97, 59, 10, 109, 97, 116, 114, 105, 120, 10, 97, 32, 10, 59, 10, 101, 110, 100, 59, 10] = .error ∧
-    Nexus.parse ⟨true, true, true⟩ {} [35, 78, 69, 88, 85, 83, 10, 98, 101, 103, 105, 110, 32, 100, 97, 116, 97, 59, 10, 100, 105, 109, 101, 110, 115, 105, 111, 110, 115, 32, 110, 116, 97, 120, 61, 45, 49, 32, 110, 99, 104, 97, 114, 61, 45, 49, 59, 10, 109, 97, 116, 114, 105, 120, 10, 97, 32, 65, 10, 59, 10, 101, 110, 100, 59, 10] = .error := by decide
+    Nexus.parse ⟨true, true, true, false⟩ {} [35, 78, 69, 88, 85, 83, 10, 91] = .error ∧
+    Nexus.parse ⟨true, true, true, false⟩ {} [35, 78, 69, 88, 85, 83, 10, 98, 101, 103, 105, 110, 32, 100, 97, 116, 97, 59, 10, 109, 97, 116, 114, 105, 120, 10, 97, 32, 10, 59, 10, 101, 110, 100, 59, 10] = .error ∧
+    Nexus.parse ⟨true, true, true, false⟩ {} [35, 78, 69, 88, 85, 83, 10, 98, 101, 103, 105, 110, 32, 100, 97, 116, 97, 59, 10, 100, 105, 109, 101, 110, 115, 105, 111, 110, 115, 32, 110, 116, 97, 120, 61, 45, 49, 32, 110, 99, 104, 97, 114, 61, 45, 49, 59, 10, 109, 97, 116, 114, 105, 120, 10, 97, 32, 65, 10, 59, 10, 101, 110, 100, 59, 10] = .error := by decide
 
 /-- a second block with more rows than the first: `names[currentnbseqs]` out of range -/
 theorem clustal_counterexample_panic :
